@@ -21,6 +21,7 @@ import BevySyncModel.Slice.Snap
 import BevySyncModel.Slice.Promo
 import BevySyncModel.Slice.Chain
 import BevySyncModel.Slice.Budget
+import BevySyncModel.Slice.World
 /-! `bsmodel`: runs the executable model definitions on the cases the Rust harness prints, one line
 in, one line out (`ok <id>` / `MISMATCH <id> <what>`).  Lines starting with `#` are ignored.
 Only model files are imported (no proofs, no Mathlib), so this links as a native executable.
@@ -830,6 +831,50 @@ def checkBudget (toks : List String) : String :=
     | _, _ => "MISMATCH parse budget numbers"
   | _ => "MISMATCH parse budget"
 
+/-! ### whole-world snapshot (C03 / C15): `world <id> <script>`; the joiner's side of a join replayed on `Slice/World.lean`:
+`k:<u>` a uuid the joiner knows beforehand (returning client), `s:<u>` / `c:<u>:<t>:<v>` / `p:<c>:<p>` every `EntitySpawn` /
+`ComponentUpdated` / `EntityParented` it received, in order, up to `FinishedInitialSync` (uuids, types and values as small
+numbers assigned by the trace reader); then what the implementation's joiner holds at that frame: `E:<u.u...>` its uuids,
+`C:<u>:<t>:<v>` a component value, `P:<u>:<p>` a parent link (`-`: none) -/
+def checkWorld (toks : List String) : String :=
+  match toks with
+  | [script] =>
+    let rec go (c : WorldSnap.Client) (k : Nat) : List String → String
+      | [] => "ok"
+      | t :: rest =>
+        match t.splitOn ":" with
+        | ["k", u] => (match u.toNat? with
+            | some u => go { c with ents := c.ents ++ [u] } (k + 1) rest
+            | none => "MISMATCH parse world k")
+        | ["s", u] => (match u.toNat? with
+            | some u => go (WorldSnap.apply c (.spawn u)) (k + 1) rest
+            | none => "MISMATCH parse world s")
+        | ["c", u, ty, v] => (match u.toNat?, ty.toNat?, v.toNat? with
+            | some u, some ty, some v => go (WorldSnap.apply c (.comp u ty v)) (k + 1) rest
+            | _, _, _ => "MISMATCH parse world c")
+        | ["p", ch, p] => (match ch.toNat?, p.toNat? with
+            | some ch, some p => go (WorldSnap.apply c (.parent ch p)) (k + 1) rest
+            | _, _ => "MISMATCH parse world p")
+        | ["E", us] =>
+          let want := ((us.splitOn ".").filterMap (·.toNat?))
+          let have_ := c.ents
+          if want.all (· ∈ have_) && have_.all (· ∈ want) && have_.length == want.length then go c (k + 1) rest
+          else s!"MISMATCH world: after {k} script steps the model's joiner knows {have_.length} uuids, the implementation's {want.length} (or other ones)"
+        | ["C", u, ty, v] => (match u.toNat?, ty.toNat?, v.toNat? with
+            | some u, some ty, some v =>
+              if WorldSnap.getComp c u ty == some v then go c (k + 1) rest
+              else s!"MISMATCH world: entity {u} type {ty}: the model's joiner holds {WorldSnap.getComp c u ty}, the implementation's value {v}"
+            | _, _, _ => "MISMATCH parse world C")
+        | ["P", u, p] => (match u.toNat? with
+            | some u =>
+              let want := p.toNat?
+              if WorldSnap.getParent c u == want then go c (k + 1) rest
+              else s!"MISMATCH world: entity {u}: the model's joiner has parent {WorldSnap.getParent c u}, the implementation's {p}"
+            | none => "MISMATCH parse world P")
+        | _ => "MISMATCH parse world script"
+    go {} 0 (script.splitOn ";")
+  | _ => "MISMATCH parse world"
+
 /-! ### chains of hand-overs (C07): `chain <id> <script>`; tokens: `f:<who>:<deliver>:<accept>:<progress>` a frame of peer
 `who` (0 = the first host, 1 = its client), `r:<who>` the application of `who` requests a promotion,
 `x:<who>:<srv>:<promo>:<cli>:<clients>` what the implementation shows after that frame (`cli`: 0 no client transport,
@@ -898,6 +943,7 @@ def handle (st : DState) (line : String) : DState × Option String :=
         | "promo" => checkPromo rest
         | "chain" => checkChain rest
         | "budget" => checkBudget rest
+        | "world" => checkWorld rest
         | _ => "MISMATCH unknown line kind"
       (st, some s!"{r} {id}")
     | _ => (st, some "MISMATCH parse ?")
